@@ -17,7 +17,7 @@ notes={
 'C12-m2':"missed at first: no source sampled one texture through two samplers; C12 now draws full-profile modules (second sampler added to genfull) and repeats each compilation up to 5 times",
 'C13-m1':"missed at first; caught since wgen emits helpers called only from loop update clauses",
 'C13-m2':"MISSED: the shape (local updated in a single-block loop nested in an if, read afterwards) is exactly what open finding C13-3 mis-promotes, so such modules are skipped (skip:known:c13-mem2reg-single-block-in-loop); an earlier 'caught' was a harness false alarm (DESIGN 8.4) that has been corrected",
-'C14-m1':"missed at first: the module-unchanged oracle is off while C14-1 is open; caught now through its effect on a later resolution (override-derived private initialisers and helper locals are generated and executed)",
+'C14-m1':"MISSED: masked by open finding C14-1 (the clone already shares nested blocks and handle pointers with the caller, so the module-unchanged oracle is off; deepening the clone breaks the MSL override goldens, verified); an earlier 'caught' was a value mismatch from finding C14-3's float64 folding at INT_MIN, since excluded",
 'C15-m2':"MISSED: needs Index policy != Buffer policy; read-zero-skip-write is off while C04-3 is open, which leaves restrict/restrict",
 'C17-m1':"missed at first; IO attributes are now printed in both orders",
 'C17-m2':"missed at first: a fake binding without [[user(fake0)]] was only counted; it is now a failure (it never occurs on the unchanged tree)",
